@@ -2,12 +2,12 @@ HOOKS = {
     'guard': 'SEANDST_ACETIME_VERIF',
     'enable': 'bin/check exports SEANDST_ACETIME_VERIF=1 and compiles /repo/src with -DSEANDST_ACETIME_VERIF=1',
     'baseline_off_cmd': 'cd /repo && env -u SEANDST_ACETIME_VERIF /venv/bin/python -m pytest -ra -q -p no:cacheprovider --timeout=900 --continue-on-collection-errors',
-    'source_commits': ['0bb50f5'],
+    'source_commits': ['0bb50f5', 'c74bfcc', 'bee90b8'],
     'add_only': True,
 }
 ENGINES = [
     {'name': 'cxx-history', 'path': 'cxx/common/mc.h + cxx/common/isolate.h + lib/runner.py',
-     'serves_properties': ['C10'],
+     'serves_properties': ['C08', 'C10'],
      'kind_free_text': 'explicit-state / small-scope exploration of operation histories on freshly constructed real objects (bounds-checking brokers, step counters, forked isolation under ASan/UBSan)'},
     {'name': 'cxx-sweep', 'path': 'cxx/common/verif.h + lib/runner.py',
      'serves_properties': ['C01', 'C02', 'C06', 'C07'],
@@ -32,4 +32,7 @@ CHECKS = {
     'C10': dict(engine='cxx-history', category='model_checking', technique='small-scope exhaustive exploration: every registry of size 0..40 x every lookup, on the real templates with bounds-checking broker and step counter',
                 text='All registries of size 0..40 drawn from the shipped zones (3 sorted bases x sorted / reversed / rotated / every adjacent swap, both databases) x every present name, absent names below / between every adjacent pair / above, prefixes, extensions, case changes, every id and id+-1, every index 0..n+1 and 0xFFFF are looked up through the real ZoneManagerImpl/ZoneRegistrar templates instantiated with a registry broker that traps any slot index >= n and a comparator that traps after 4n+64 comparisons, compared with a linear scan. The protected binary/linear searches are also called directly on every sorted registry (below the size-6 threshold too). The stock manager typedefs are then driven on the two full registries and selected sizes in forked children under ASan with a watchdog.',
                 note='registries with duplicate names are not enumerated; sizes above 40 only through the two shipped registries (387, 268).', thorough=False),
+    'C08': dict(engine='cxx-history', category='model_checking', technique='explicit-state BFS over query histories on the real cache/binding automata with canonical-state deduplication, fresh-object oracle',
+                text='The hidden state behind the value-like API (per-processor year cache, processor<->zone binding, manager round-robin cache) is explored as an automaton on the real objects: every zone with its own processor (6 calls x 57 argument classes, to fixpoint = histories of any length), 2-3 TimeZone values sharing one processor, and zone managers with 1..4 slots holding more zones than slots, plus the Python ZoneSpecifier over every ordered year pair. Every transition is compared with the same call on a fresh object.',
+                note='argument classes are one instant/local time per year plus sentinels, not every instant (C01 covers instants); the canonical key is the complete cache content read through friend names and two read-only guarded hooks.'),
 }
